@@ -51,7 +51,15 @@ pub enum StoreFault {
     FieldChar { path: String, pointer: String, at: usize, ch: char },
     /// one node of a genuine artifact wrapped into `depth` nested arrays: deep nesting in the
     /// middle of an otherwise ordinary file (whatever precedes it has been scanned normally)
-    DeepSplice { path: String, pick: u64, depth: usize },
+    DeepSplice {
+        path: String,
+        pick: u64,
+        depth: usize,
+        /// instead of wrapping a node: an additional (unknown) field with a deeply nested value at
+        /// the end of an object, which a tolerant reader skips recursively
+        #[serde(default)]
+        extra_field: bool,
+    },
 }
 
 #[derive(Clone, Debug, serde::Serialize, serde::Deserialize)]
@@ -177,17 +185,27 @@ fn apply_store_fault(sb: &Sandbox, f: &StoreFault) -> bool {
             sb.write(path, serde_json::to_string_pretty(&doc).unwrap().as_bytes());
             true
         }
-        StoreFault::DeepSplice { path, pick, depth } => {
+        StoreFault::DeepSplice { path, pick, depth, extra_field } => {
             let Some(b) = sb.read(path) else { return false };
             let Ok(mut doc) = serde_json::from_slice::<Value>(&b) else { return false };
-            let ptrs = faults::all_pointers(&doc);
-            if ptrs.is_empty() {
-                return false;
+            let mut ptrs = faults::all_pointers(&doc);
+            let inner;
+            if *extra_field {
+                ptrs.retain(|q| doc.pointer(q).map(|v| v.is_object()).unwrap_or(false));
+                ptrs.push(String::new());
+                let ptr = ptrs[Prng::new(*pick).usize(ptrs.len())].clone();
+                let Some(Value::Object(m)) = doc.pointer_mut(&ptr) else { return false };
+                m.insert("zz_extra".to_string(), Value::String("@@SPLICE@@".to_string()));
+                inner = "1".to_string();
+            } else {
+                if ptrs.is_empty() {
+                    return false;
+                }
+                let ptr = ptrs[Prng::new(*pick).usize(ptrs.len())].clone();
+                let Some(node) = doc.pointer_mut(&ptr) else { return false };
+                inner = serde_json::to_string(node).unwrap();
+                *node = Value::String("@@SPLICE@@".to_string());
             }
-            let ptr = ptrs[Prng::new(*pick).usize(ptrs.len())].clone();
-            let Some(node) = doc.pointer_mut(&ptr) else { return false };
-            let inner = serde_json::to_string(node).unwrap();
-            *node = Value::String("@@SPLICE@@".to_string());
             let text = serde_json::to_string_pretty(&doc).unwrap();
             let wrapped = format!("{}{}{}", "[".repeat(*depth), inner, "]".repeat(*depth));
             sb.write(path, text.replacen("\"@@SPLICE@@\"", &wrapped, 1).as_bytes());
@@ -807,7 +825,9 @@ fn check_case(sb: &Sandbox, opts: &Opts, idx: usize, case: &Case, per_op: usize,
                         let path = (*p.pick(&arts)).clone();
                         let pick = p.next_u64();
                         for depth in [150usize, 3_000, 12_000] {
-                            plans.push(FaultPlan { store: StoreFault::DeepSplice { path: path.clone(), pick, depth }, spec: clean_spec.clone() });
+                            for extra_field in [false, true] {
+                                plans.push(FaultPlan { store: StoreFault::DeepSplice { path: path.clone(), pick, depth, extra_field }, spec: clean_spec.clone() });
+                            }
                         }
                     }
                 }
